@@ -13,7 +13,7 @@ SYSTEM = frozenset([b'\\answered', b'\\deleted', b'\\draft', b'\\flagged',
 
 
 class Msg:
-    __slots__ = ('uid', 'flags', 'date', 'body', 'token')
+    __slots__ = ('uid', 'flags', 'date', 'body', 'token', 'adopt_content')
 
     def __init__(self, uid, flags, date, body, token=None) -> None:
         self.uid = uid
@@ -21,6 +21,7 @@ class Msg:
         self.date = date          # aware datetime or None (= server clock)
         self.body = body
         self.token = token
+        self.adopt_content = False
 
     def row(self):
         return (self.uid, tuple(sorted(self.flags)), self.date,
@@ -70,6 +71,8 @@ class Box:
 class Store:
     def __init__(self) -> None:
         self.boxes: dict[str, Box] = {}
+        # backends that rewrite content/dates on APPEND: adopt when first seen
+        self.adopt_appends = False
 
     def clone(self):
         return copy.deepcopy(self)
